@@ -51,6 +51,14 @@ func simMmap(f *os.File) (*mmap.Data, error) {
 	simrt.PostSys(c, err)
 	if err == nil && d != nil && len(d.Data) > 0 {
 		m := &mapping{d: d, path: f.Name(), full: d.Data[:cap(d.Data)], owner: simrt.CurProc()}
+		if s := simrt.S; s != nil {
+			for _, old := range mappings {
+				if old.path == m.path && old.owner == m.owner && len(old.full) < len(m.full) {
+					s.Probe("remap-after-growth")
+					break
+				}
+			}
+		}
 		mappings = append(mappings, m)
 		mapByData[d] = m
 	}
